@@ -217,7 +217,7 @@ fn counters_of(res: &ExecResult, scenario: &Scenario) -> BTreeMap<String, u64> {
             Op::DiskWrite { .. } => ext_write += 1,
             Op::DiskRemove { .. } => remove += 1,
             Op::DiskUnreadable { .. } => unreadable += 1,
-            Op::Open { path, .. } | Op::Change { path, .. } => {
+            Op::Open { path, .. } | Op::Change { path, .. } | Op::Change2 { path, .. } => {
                 if last_root.map(|r| r != path).unwrap_or(false) {
                     root_switch += 1;
                 }
